@@ -48,6 +48,66 @@ TABLES = ["C12", "C20"]
 
 STDLIB_LEAF = ["keyword", "colorsys", "token"]      # source files without imports (verified per run)
 STDLIB_OPAQUE = ["sys", "os", "math"]               # origin 'built-in' / 'frozen' / .so
+
+# The wider universe of stdlib names: `__future__` (isort's FUTURE section), frozen / built-in /
+# extension modules, source modules and packages, dotted names. name -> a member for `from X import m`.
+# The CLASS of each is established per run by importlib (never by rattr): STDLIB_CLASS.
+FUTURE_FEATURES = ["annotations", "division", "print_function", "generator_stop", "absolute_import",
+                   "unicode_literals", "with_statement", "nested_scopes", "generators", "barry_as_FLUFL"]
+STDLIB_WIDE = {"__future__": "annotations",
+               "os": "sep", "zipimport": "zipimporter", "posixpath": "join", "codecs": "lookup", "stat": "S_ISDIR",
+               "sys": "argv", "builtins": None, "_thread": "allocate_lock", "_io": "StringIO", "time": "sleep",
+               "itertools": "chain",
+               "math": "pi", "array": "array", "_json": "scanstring", "select": "select", "zlib": "crc32",
+               "keyword": "iskeyword", "colorsys": "rgb_to_hls", "token": "tok_name", "struct": "pack",
+               "json": "dumps", "email": "message_from_string", "collections": "OrderedDict", "xml": None,
+               "importlib": "import_module",
+               "os.path": "join", "collections.abc": "Mapping", "importlib.metadata": "version",
+               "json.decoder": "JSONDecoder", "xml.etree.ElementTree": "parse", "encodings.utf_8": "decode",
+               "concurrent.futures": "Future"}
+# (not `this` / `antigravity`: rattr's find_module_name_and_spec("this.s") calls importlib's find_spec on
+# the dotted name, which IMPORTS the parent module — the Zen is printed, a browser opened)
+# names isort places in STDLIB although this interpreter has no such module (removed modules)
+STDLIB_GONE = ["distutils", "imp", "asynchat"]
+
+
+def _stdlib_class(name):
+    """(class, leafy): class by construction of the running interpreter (importlib.util.find_spec):
+    __future__ | frozen | built-in | extension | source-module | source-package, + ':dotted';
+    leafy = following it cannot lead anywhere (no source to read, or a source without imports)."""
+    import importlib.util
+    try:
+        spec = importlib.util.find_spec(name)
+    except Exception:
+        spec = None
+    if spec is None:
+        return None, False
+    o = spec.origin
+    if name == "__future__":
+        cls = "__future__"
+    elif o in ("frozen", "built-in"):
+        cls = o
+    elif o and o.endswith(".py"):
+        cls = "source-package" if spec.submodule_search_locations is not None else "source-module"
+    elif o:
+        cls = "extension"
+    else:
+        return None, False
+    leafy = True
+    if o and o.endswith(".py"):
+        try:
+            leafy = not any(isinstance(x, (ast.Import, ast.ImportFrom)) for x in ast.walk(ast.parse(Path(o).read_text())))
+        except Exception:
+            leafy = False
+    return cls + (":dotted" if "." in name else ""), leafy
+
+
+STDLIB_CLASS = {n: _stdlib_class(n) for n in STDLIB_WIDE}
+STDLIB_CLASS = {n: v for n, v in STDLIB_CLASS.items() if v[0] is not None and n.split(".")[0] in sys.stdlib_module_names}
+# a member that is itself a builtin name would not become an Import symbol at all (root context: the
+# name is already declared) — `builtins` is only imported as a module
+assert not any(m in dir(__import__("builtins")) for m in STDLIB_WIDE.values() if m)
+STDLIB_GONE_HERE = [n for n in STDLIB_GONE if _stdlib_class(n)[0] is None and n not in sys.stdlib_module_names]
 # how a generated file can get a SECOND module name (`names[n]["via"]`; one mechanism per project)
 ALIAS_VIAS = ["subdir-on-path:<spelling>",          # a sub-directory of a search dir is a search dir too
               "symlink-inside-search-dir:dir",      # a symlinked directory below a search dir
@@ -128,9 +188,13 @@ class Gen:
         forms = ["import", "import_as"]
         if fn:
             forms += ["from", "from", "from_as"]
-        if parent and kind in ("local", "pip"):
+        multi = None
+        if isinstance(member, (tuple, list)):
+            # `from __future__ import a, b`: one statement, one Import symbol per feature
+            multi, fn, form, forms = list(member), member[0], "from", ["from"]
+        if parent and kind in ("local", "pip", "stdlib"):
             forms += ["from_pkg"]
-            if pkg == parent and info["file"][0] == src_key[0] and src_key not in self.no_rel \
+            if kind != "stdlib" and pkg == parent and info["file"][0] == src_key[0] and src_key not in self.no_rel \
                     and not info.get("via"):
                 forms += ["rel_from_mod", "rel_from_pkg", "rel_from_mod"]
         if form is None or form not in forms:
@@ -187,9 +251,20 @@ class Gen:
             qual, decl = f"{dst}.{fn}", dst
             call = f"{ident}(x)" if has_fn else None
         f["ids"].add(ident)
-        f["stmts"].append(stmt)
-        f["symbols"].append({"qualified": qual, "declared": decl, "intended": None if kind == "missing" else dst,
-                             "form": form})
+        syms = [{"qualified": qual, "declared": decl, "intended": None if kind == "missing" else dst, "form": form}]
+        if multi and form == "from":
+            stmt = f"from {dst} import " + ", ".join(multi)
+            syms = [{"qualified": f"{dst}.{m}", "declared": dst, "intended": dst, "form": "from_multi"} for m in multi]
+            f["ids"].update(multi)
+        if dst == "__future__" and stmt.startswith("from "):
+            # future statements stand before everything else in the file
+            a, b = f.get("nf_stmt", 0), f.get("nf_sym", 0)
+            f["stmts"].insert(a, stmt)
+            f["symbols"][b:b] = syms
+            f["nf_stmt"], f["nf_sym"] = a + 1, b + len(syms)
+        else:
+            f["stmts"].append(stmt)
+            f["symbols"].extend(syms)
         if call and self.rng.random() < 0.85:
             f["calls"].append(call)
 
@@ -308,10 +383,28 @@ def random_case(rng):
         g.add_file("proj", "lns/inner/nmod.py", "lns.inner.nmod", "local")
     members = {"keyword": "iskeyword", "colorsys": "rgb_to_hls", "token": "tok_name", "sys": "argv", "os": "sep",
                "math": "pi"}
+    level = rng.choice([0, 1, 1, 2, 2, 3, 3])
     for n in rng.sample(STDLIB_LEAF, rng.randint(0, 2)):
         g.add_name(n, "stdlib")
     if rng.random() < 0.35:
         g.add_name(rng.choice(STDLIB_OPAQUE), "opaque")
+    if rng.random() < 0.5:
+        # the wider universe; at level 3 only modules behind which nothing can be followed (a source
+        # with imports would have to be analysed together with everything it imports)
+        wide = sorted(n for n, (_, leafy) in STDLIB_CLASS.items() if n != "__future__" and (level < 3 or leafy))
+        for n in rng.sample(wide, rng.randint(1, 2)):
+            if n not in g.names:
+                g.add_name(n, "stdlib")
+                members[n] = STDLIB_WIDE[n]
+    if "__future__" in STDLIB_CLASS and rng.random() < 0.35:
+        g.add_name("__future__", "stdlib")
+        k = rng.choice([1, 1, 2, 3])
+        feats = rng.sample(FUTURE_FEATURES, k)
+        members["__future__"] = feats[0] if k == 1 else tuple(feats)
+    if STDLIB_GONE_HERE and rng.random() < 0.04:
+        n = rng.choice(STDLIB_GONE_HERE)
+        g.add_name(n, "missing")
+        members[n] = "q"
     rattr_form = rng.choice(RATTR_FORMS) if rng.random() < 0.3 else None
     if rattr_form:
         g.add_name(rattr_form[0], "rattr")
@@ -328,7 +421,6 @@ def random_case(rng):
             if dst == src_name or g.names[dst]["file"] == key:
                 continue  # no self-import (under either name)
             g.add_import(key, dst, member=members.get(dst))
-    level = rng.choice([0, 1, 1, 2, 2, 3, 3])
     pool = pattern_pool(g)
     r = rng.random()
     patterns = [] if r < 0.35 else rng.sample(pool, 1 if r < 0.8 else 2)
@@ -435,6 +527,52 @@ def alias_cases():
         c = g.case(lvl, [])
         c["shape"] = {"two_names": False, "missing": False, "corpus": f"site-packages-through-symlink-f{lvl}"}
         yield c
+
+
+def stdlib_universe_cases():
+    """Every class of stdlib name (STDLIB_CLASS: __future__ with one / several features and in every
+    import form, frozen, built-in, extension, source module / package, dotted) imported by the target
+    and by a followed local module, at every level at which the graph can be closed (level 3 only for
+    modules behind which nothing can be followed). Ground truth: all of them are stdlib, analysed
+    only at level 3."""
+    picks, seen_cls = [], set()
+    for n in STDLIB_WIDE:                      # one representative per class, plus all dotted names
+        if n in STDLIB_CLASS and n != "__future__":
+            cls = STDLIB_CLASS[n][0]
+            if cls not in seen_cls or cls.endswith(":dotted"):
+                seen_cls.add(cls)
+                picks.append((n, STDLIB_WIDE[n], None))
+    if "__future__" in STDLIB_CLASS:
+        picks += [("__future__", "annotations", "from"), ("__future__", ("division", "annotations", "generator_stop"), "from"),
+                  ("__future__", "print_function", "from_as"), ("__future__", None, "import"),
+                  ("__future__", None, "import_as")]
+    for name, member, form in picks:
+        leafy = STDLIB_CLASS[name][1]
+        for where in ("target", "followed-import"):
+            for level in range(4):
+                if level == 3 and not leafy:
+                    continue
+                if name != "__future__" and (level == 0 or (where == "followed-import" and level == 2)):
+                    continue            # keep the block small: the FUTURE rows are complete
+                g = Gen(random.Random(level))
+                g.add_file("proj", "target.py", "target", "local")
+                g.add_file("proj", "lm0.py", "lm0", "local")
+                g.add_file("sp", "pq1.py", "pq1", "pip")
+                g.add_name(name, "stdlib")
+                t = ("proj", "target.py")
+                g.add_import(t, "lm0", form="from")
+                g.add_import(t, "pq1", form="import")
+                holder = t if where == "target" else ("proj", "lm0.py")
+                g.add_import(holder, name, form=form, member=member)
+                if where == "followed-import" and name == "__future__":
+                    g.add_import(("sp", "pq1.py"), name, form="from", member="annotations")
+                g.files[t]["calls"] = ["f_lm0(x)", "pq1.f_pq1(x)"]
+                c = g.case(level, [])
+                c["shape"] = {"two_names": False, "missing": False,
+                              "corpus": f"stdlib:{STDLIB_CLASS[name][0]}:{name}:{where}:f{level}",
+                              "cli": name == "__future__" and form == "from" and not isinstance(member, tuple)
+                              and (where == "target" or level == 1)}
+                yield c
 
 
 def enumerated_cases(nodes):
@@ -624,6 +762,10 @@ def channel_cases():
             g.add_import(("proj", "target.py"), "pq1", form="import")
             g.add_import(("proj", "target.py"), "keyword", form="import")
             g.add_import(("proj", "lm0.py"), "lm1", form="import")
+            if "__future__" in STDLIB_CLASS:
+                g.add_name("__future__", "stdlib")
+                g.add_import(("proj", "target.py"), "__future__", form="from", member="annotations")
+                g.add_import(("proj", "lm1.py"), "__future__", form="from", member=("division", "annotations"))
             g.add_import(("proj", "lm1.py"), "pq1", form="from")
             g.add_import(("sp", "pq1.py"), "keyword", form="import")
             g.files[("proj", "target.py")]["calls"] = ["f_lm0(x)", "pq1.f_pq1(x)"]
@@ -808,6 +950,7 @@ def real_facts(pr: Project):
     parameters). Must be called inside the case's cwd / sys.path / Config."""
     from rattr.module_locator.util import (find_module_name_and_spec, is_in_import_blacklist, is_in_pip,
                                            is_in_stdlib)
+    from isort.api import place_module
     case = pr.case
     by_origin = {}
     for rel, syms in case["symbols"].items():
@@ -837,13 +980,17 @@ def real_facts(pr: Project):
             if os.path.realpath(origin) in by_origin:
                 syms = by_origin[os.path.realpath(origin)]
             elif tree is not None and not n.startswith("rattr"):
-                # a real stdlib leaf: must have no imports, else the graph cannot be closed here
-                if any(isinstance(x, (ast.Import, ast.ImportFrom)) for x in ast.walk(tree)):
+                # a real stdlib module: when stdlib modules are followed (level 3) it must have no
+                # imports, else the graph cannot be closed here. Below level 3 nothing behind it may be
+                # looked at, so its imports are irrelevant (and if rattr follows it all the same, the
+                # oracle reports exactly that).
+                if case["level"] >= 3 and any(isinstance(x, (ast.Import, ast.ImportFrom)) for x in ast.walk(tree)):
                     outside.append(n)
         m = {"name": n, "origin": origin, "readable": readable,
              "real": (os.path.realpath(origin) if origin is not None and os.path.isabs(origin) else origin),
              "blacklisted": bool(is_in_import_blacklist(n)), "inPip": bool(is_in_pip(n)),
-             "inStdlib": bool(is_in_stdlib(n)), "excluded": excluded_indep(n, case["patterns"]),
+             "inStdlib": bool(is_in_stdlib(n)), "section": str(place_module(n)),
+             "excluded": excluded_indep(n, case["patterns"]),
              "imports": [imp_fact(s) for s in syms]}
         modules[n] = m
         order.append(n)
@@ -900,7 +1047,8 @@ def shape_of(case, name):
     PEP 420 namespace package (some ancestor directory has no __init__.py)."""
     f = file_of(case, name)
     if f is None:
-        return "no-file"
+        # a stdlib name: its class in the running interpreter (importlib, see STDLIB_CLASS)
+        return STDLIB_CLASS[name][0] if name in STDLIB_CLASS else "no-file"
     root, _, rel = f.partition("/")
     parts = rel.split("/")
     dirs = ["/".join(parts[:i]) for i in range(1, len(parts))]
@@ -1202,6 +1350,21 @@ def evaluate(res, case, obs, mo, cli=None):
                                         "case": shown})
             return
         res.count("theorem-instance:C12_partial")
+    if hy.get("sectionsAgree") is not None:
+        # the model of is_in_stdlib (isort section -> verdict) vs the real is_in_stdlib, per module
+        secs = {m["name"]: m.get("section") for m in facts["modules"]}
+        for n, sct in secs.items():
+            res.count("isort-section:" + str(sct))
+        if not hy["sectionsAgree"]:
+            res.disagreements.append({"stage": "classification (is_in_stdlib of the isort section)", "case": shown,
+                                      "impl": {m["name"]: [m.get("section"), m["inStdlib"]] for m in facts["modules"]},
+                                      "model": "inStdlib = section in (STDLIB, FUTURE)"})
+        elif mo["specFlagsAgree"]:
+            if lvl < 3 and any(secs.get(n) in ("FUTURE", "STDLIB") for n in mo["analysed"]):
+                res.internal_errors.append({"what": "theorem C12_stdlib_section_only_at_level3 contradicted by the driver",
+                                            "model": mo, "case": shown})
+                return
+            res.count("theorem-instance:C12_stdlib_section_only_at_level3")
     if hy.get("originsCanonical") is not None:
         if hy["originsCanonical"] and not mo["realNodup"]:
             res.internal_errors.append({"what": "theorem C12_once_real contradicted by the driver", "model": mo,
@@ -1310,10 +1473,15 @@ def run(tier, seed, build):
                 "spellings (real, through a symlink, ./x, x/../x, x/), a symlinked directory / file inside a search dir, "
                 "site-packages behind a symlink; second name imported by the target or by a followed import; analyses "
                 "counted per real file (os.path.realpath). "
+                "Stdlib universe (class of each name established per run by importlib, never by rattr): __future__ "
+                "(isort section FUTURE; one / several features, every import form), frozen, built-in, extension, "
+                "source modules and packages, dotted names (os.path, collections.abc, importlib.metadata, ...), "
+                "imported by the target and by followed local / pip modules, at every level (level 3 only where nothing "
+                "can be followed behind the module) and in the channel matrix; ground truth: sys.stdlib_module_names. "
                 "non-trivial = distinct case whose target imports at least one locatable module")
     rng = random.Random(seed)
     n_random, n_cli = (400, 16) if tier == "quick" else (800, 30)
-    cases = list(corpus_cases()) + list(alias_cases()) + list(channel_cases())
+    cases = list(corpus_cases()) + list(alias_cases()) + list(channel_cases()) + list(stdlib_universe_cases())
     N_CORPUS = len(cases)
     if tier == "quick":
         cases += list(enumerated_cases(["target", "lm0", "pq1"]))
@@ -1382,6 +1550,8 @@ def run(tier, seed, build):
         "isort.place_module, the site-packages regex and re.fullmatch are trusted classifiers: their verdicts are per-module parameters of the model",
         "[interp] a module is identified by its name (the key of import_irs); 'matching an --exclude-import pattern' = re.fullmatch(pattern, module name)",
         "[interp] parent packages of a followed submodule need not be analysed; star imports are outside the fragment (expand_starred_imports parses the starred module whatever the level)",
+        "ground truth for 'stdlib module': the top-level name is in sys.stdlib_module_names (this includes __future__); isort's section of a name is a per-module parameter of the model (Tie A: the five sections of the installed isort and is_in_stdlib's verdict on each)",
+        "isort's FIRSTPARTY section arises only through the real CLI (isort's src_paths = cwd of the process when isort is imported = the project dir); in-process local modules are THIRDPARTY; LOCALFOLDER (relative names) never reaches is_in_stdlib. Both are non-stdlib verdicts (Tie A samples)",
         "[interp] 'analysed exactly once' counts analyses per REAL file (os.path.realpath of what was opened): one file under two module names must be read and analysed once, and both names must be usable (keys of import_irs)",
         "[interp] the follow level / patterns in effect are what the documented sources say: last -f/--follow-imports on the command line, else follow-imports of the TOML table that applies (-c file if it exists, else the project's pyproject.toml), else 1; exclusion patterns accumulate (TOML then command line)",
         "argparse's tokeniser (--follow-imports=N, -fN) is outside the Lean CLI model: those channels are judged by the oracle only",
